@@ -1,6 +1,6 @@
 SPECIFICATION Spec
 CONSTANTS
-  Models = {"ConstituentDecay", "StorageDissolvedDecay", "StorageTrapAll", "InstreamCoarseSediment", "InstreamParticulateNutrient"}
+  Models = {"LumpedConstituentRouting"}
   Grid = "small"
   Emit = TRUE
 INVARIANTS MassConserved ConstituentNonNegative FlushOnlyWhenEmpty FineStoreBounds FineFlushOnlyWhenDry
